@@ -144,15 +144,13 @@ auto cls_negzero(T x) -> bool
 {
     return zero_b(x) && sign_b(x);
 }
+// run-time ceil is gcem::ceil on the pinned tree: wrong sign of zero for -1 < x < 0, returns x itself for 0 < |x| < epsilon,
+// and casts to long long (undefined, garbage result) for |x| >= 2^63
 template <typename T>
-auto cls_ceil_negfrac(T x) -> bool
+auto cls_ceil_gcem(T x) -> bool
 {
-    return x > T(-1) && x < T(0);
-}
-template <typename T>
-auto cls_huge63(T x) -> bool
-{
-    return !(x > T(-0x1p63) && x < T(0x1p63)) && !nan_b(x) && !inf_b(x);
+    if (nan_b(x) || inf_b(x) || zero_b(x)) { return false; }
+    return (x > T(-1) && x < T(0)) || (x > T(0) && x < std::numeric_limits<T>::epsilon()) || !(x > T(-0x1p63) && x < T(0x1p63));
 }
 
 template <typename T>
@@ -161,9 +159,7 @@ struct Entry {
     int (*check)(T, Out*);
     char const* tag1{nullptr};
     bool (*cls1)(T){nullptr};
-    char const* tag2{nullptr};
-    bool (*cls2)(T){nullptr};
-    bool act1{false}, act2{false};
+    bool act1{false};
 };
 
 template <typename T>
@@ -172,7 +168,7 @@ auto table() -> std::vector<Entry<T>>&
     static std::vector<Entry<T>> t = [] {
         std::vector<Entry<T>> v{
             {"floor", u_floor<T>},
-            {"ceil", u_ceil<T>, "C16.ceil.negfrac", cls_ceil_negfrac<T>, "C16.ceil.huge", cls_huge63<T>},
+            {"ceil", u_ceil<T>, "C16.ceil.gcem", cls_ceil_gcem<T>},
             {"trunc", u_trunc<T>},
             {"round", u_round<T>},
             {"rint", u_rint<T>},
@@ -187,7 +183,7 @@ auto table() -> std::vector<Entry<T>>&
         };
         if constexpr (sizeof(T) == 4) {
             v.push_back({"floorf", u_floorf});
-            v.push_back({"ceilf", u_ceilf, "C16.ceil.negfrac", cls_ceil_negfrac<float>, "C16.ceil.huge", cls_huge63<float>});
+            v.push_back({"ceilf", u_ceilf, "C16.ceil.gcem", cls_ceil_gcem<float>});
             v.push_back({"truncf", u_truncf});
             v.push_back({"roundf", u_roundf});
             v.push_back({"rintf", u_rintf});
@@ -197,7 +193,6 @@ auto table() -> std::vector<Entry<T>>&
         }
         for (auto& e : v) {
             e.act1 = e.tag1 != nullptr && vf::ctx().excluded(e.tag1);
-            e.act2 = e.tag2 != nullptr && vf::ctx().excluded(e.tag2);
         }
         return v;
     }();
@@ -217,20 +212,13 @@ void run_buffer(std::vector<typename BitsOf<T>::type> const& pats, std::vector<u
     for (auto& e : table<T>()) {
         Case k{e.name, BitsOf<T>::name, 1, 0, 0, 0};
         vf::Flight<Case> fl(e.name, k);
-        std::uint64_t n = 0, nnt = 0, ex1 = 0, ex2 = 0;
-        bool const anyact = e.act1 || e.act2;
+        std::uint64_t n = 0, nnt = 0, ex1 = 0;
         for (std::size_t i = 0; i < pats.size(); ++i) {
             k.a       = pats[i];
             T const x = from_bits<T>(pats[i]);
-            if (anyact) {
-                if (e.act1 && e.cls1(x)) {
-                    ++ex1;
-                    continue;
-                }
-                if (e.act2 && e.cls2(x)) {
-                    ++ex2;
-                    continue;
-                }
+            if (e.act1 && e.cls1(x)) { // known-finding class: not called at all
+                ++ex1;
+                continue;
             }
             int const r = e.check(x, nullptr);
             if (r == 0) { continue; }
@@ -245,7 +233,6 @@ void run_buffer(std::vector<typename BitsOf<T>::type> const& pats, std::vector<u
         vf::eval(e.name, n);
         vf::nontrivial_count(nnt);
         if (ex1 != 0) { vf::excluded_known(e.tag1, ex1); }
-        if (ex2 != 0) { vf::excluded_known(e.tag2, ex2); }
     }
 }
 
@@ -308,13 +295,16 @@ struct Batch {
     {
         flush();
         std::string p = prefix;
-        add_label((p + ".nontrivial").c_str(), n_nt, n_total);
-        add_label((p + ".zero").c_str(), n_zero, n_total);
-        add_label((p + ".denormal").c_str(), n_den, n_total);
-        add_label((p + ".inf_or_nan").c_str(), n_infnan, n_total);
-        add_label((p + ".no_fraction_bits").c_str(), n_big, n_total);
-        add_label((p + ".exact_tie").c_str(), n_tie, n_total);
-        add_label((p + ".near_power_of_two").c_str(), n_pow2, n_total);
+        // the fraction of non-trivial arguments is the health figure; the individual classes are small BY DEFINITION in a
+        // sweep over bit patterns (there are only two zeros), so they are reported as absolute counts of patterns covered
+        add_label((p + ".nontrivial argument").c_str(), n_nt, n_total);
+        vf::count((p + ".patterns").c_str(), n_total);
+        vf::count((p + ".patterns.zero").c_str(), n_zero);
+        vf::count((p + ".patterns.denormal").c_str(), n_den);
+        vf::count((p + ".patterns.inf_or_nan").c_str(), n_infnan);
+        vf::count((p + ".patterns.no_fraction_bits").c_str(), n_big);
+        vf::count((p + ".patterns.exact_tie").c_str(), n_tie);
+        vf::count((p + ".patterns.within_64ulp_of_power_of_two").c_str(), n_pow2);
     }
 };
 
